@@ -28,9 +28,20 @@ Proof. cbv zeta. repeat split; try (vm_compute; congruence). apply Forall_forall
 
 (* ---- supporting theorems the property theorem rests on (generated) ---- *)
 From Coq Require Import ZArith List Bool.
-From NPS Require Import ListAux PySlice NumpySem Scatter BuildIdx XorBroadcast View Index Assign Reduce Scan RaOps Heap Hash HashRun BitArr RLE RLEOps RLE2d DataClass RowsSpec AssignSpec MapSpec Denote Bits BitProof WindowCore DigitSlice WindowProof.
+From NPS Require Import ListAux PySlice NumpySem Scatter BuildIdx XorBroadcast View Index Assign Reduce Scan RaOps Heap Hash HashRun BitArr RLE RLEOps RLE2d DataClass RowsSpec AssignSpec MapSpec Denote Bits BitProof BitGetList WindowCore DigitSlice WindowProof.
 Import ListNotations.
 Open Scope Z_scope.
+
+Theorem C13_getlist_correct :
+  forall (a : list Z) (b : Z),
+       1 <= b ->
+       b * (W / b) = W ->
+       Forall (digit_ok b) a ->
+       forall idx : list Z,
+       Forall (fun i : Z => 0 <= i < zlen a) idx ->
+       rmap unpack (getlist (pack a b) idx) = Ok (map (fun i : Z => nth (Z.to_nat i) a 0) idx).
+Proof. exact getlist_correct. Qed.
+Print Assumptions C13_getlist_correct.
 
 Theorem C13_pack_registers :
   forall (a : list Z) (b : Z),
